@@ -872,4 +872,288 @@ def fsCloseFails : FSIO :=
     that of `a`, whose parse fails (root → a → root), so that only the deferred `Close` runs -/
 def fsCloseIgnored : FSIO := [(nmRoot, inc nmA, false, true), (nmA, inc nmRoot, false, true)]
 
+/-! ## Logs, per HANDLE: well nested; closed twice / once
+
+`OpensClosed` (used by `parseFileIO_opensClosed`) matches opens and closes BY NAME.  Where one name
+is open twice - every RecursiveInclude opens a file that is already open on the include path - the
+later close of the OUTER handle also "closes" the re-opened one, so `OpensClosed` would hold of a
+log in which the re-opened handle is never closed.  The statements of this section are about
+handles: `Nested` (RV.Proofs.DictWalk) is the language of well-bracketed logs, every `opened n`
+matched by its OWN `closed n` (once or twice, directly after one another); `ClosedTwice` and
+`UnwoundIO` say which of the two it is. -/
+
+/-- the log of a stretch in which every include SUCCEEDED: well bracketed, every handle closed
+    exactly TWICE (the explicit `incFile.Close()` and the deferred one), the two directly after one another -/
+inductive ClosedTwice : List Event → Prop where
+  | nil : ClosedTwice []
+  | file (n : Bytes) {inner rest : List Event} : ClosedTwice inner → ClosedTwice rest →
+      ClosedTwice (Event.opened n :: (inner ++ Event.closed n :: Event.closed n :: rest))
+
+theorem ClosedTwice.append {a b : List Event} (ha : ClosedTwice a) (hb : ClosedTwice b) : ClosedTwice (a ++ b) := by
+  induction ha with
+  | nil => exact hb
+  | @file n inner rest h1 _ _ ih2 =>
+    have := ClosedTwice.file n h1 ih2
+    simpa [List.append_assoc] using this
+
+theorem ClosedTwice.nested {w : List Event} (h : ClosedTwice w) : Nested w := by
+  induction h with
+  | nil => exact .nil
+  | @file n inner rest _ _ ih1 ih2 => exact Nested.file n true ih1 ih2
+
+/-- … so every name is closed exactly twice as often as it is opened -/
+theorem ClosedTwice.count_eq {w : List Event} (h : ClosedTwice w) (n : Bytes) :
+    w.count (Event.closed n) = 2 * w.count (Event.opened n) := by
+  induction h with
+  | nil => simp
+  | @file m inner rest _ _ ih1 ih2 =>
+    by_cases hm : m = n <;> simp [List.count_append, hm] <;> omega
+
+/-- the file a ParseError-class failure names -/
+def FailureIO.file? : FailureIO → Option Bytes
+  | .base (.decl _ f _) | .base (.openErr f _ _) | .base (.recursive f _ _) | .closeErr f _ _ => some f
+  | _ => none
+
+/-- what the failing line itself adds to the log, in the file where the failure arises:
+    * RecursiveInclude of `n`: the handle that was opened - a second handle on a file of the include
+      path - and its ONE close (the deferred one);
+    * a failing `Close` of `n`: the handle, the log of its (successful) parse, its TWO closes;
+    * every other failure (refused line, scanner, reader, unclosed block, missing file): nothing. -/
+inductive FaultTail : FailureIO → List Event → Prop where
+  | plain {e : FailureIO} : (∀ f l n, e ≠ .base (.recursive f l n)) → (∀ f l n, e ≠ .closeErr f l n) →
+      FaultTail e []
+  | reopened (f : Bytes) (l : Nat) (n : Bytes) :
+      FaultTail (.base (.recursive f l n)) [Event.opened n, Event.closed n]
+  | closeFailed (f : Bytes) (l : Nat) (n : Bytes) {inner : List Event} : ClosedTwice inner →
+      FaultTail (.closeErr f l n) (Event.opened n :: (inner ++ [Event.closed n, Event.closed n]))
+
+theorem FaultTail.nested {e : FailureIO} {t : List Event} (h : FaultTail e t) : Nested t := by
+  cases h with
+  | plain => exact .nil
+  | reopened f l n => exact Nested.openClose n
+  | closeFailed f l n hin =>
+    have := Nested.file n true hin.nested Nested.nil
+    simpa using this
+
+/-- The log that the parse of `file` (already open) adds when it fails with `e`; `ns` = the handles
+    opened below `file` that are still open when the failure arises, outermost first.  Everything
+    that completed before (`w`) is `ClosedTwice`; each handle of `ns` is opened once and, after the
+    failure, closed exactly ONCE, innermost first (only the deferred `Close` runs on an error path);
+    the failure arises in the last file of `file :: ns`, which is the file `e` names (if it names
+    one), and adds its `FaultTail` there. -/
+inductive UnwoundIO (e : FailureIO) : Bytes → List Bytes → List Event → Prop where
+  | here {file : Bytes} {w t : List Event} : ClosedTwice w → FaultTail e t →
+      (∀ g, e.file? = some g → g = file) → UnwoundIO e file [] (w ++ t)
+  | into {file : Bytes} (n : Bytes) {ns : List Bytes} {w inner : List Event} : ClosedTwice w →
+      UnwoundIO e n ns inner → UnwoundIO e file (n :: ns) (w ++ Event.opened n :: (inner ++ [Event.closed n]))
+
+theorem UnwoundIO.nested {e : FailureIO} {file : Bytes} {ns : List Bytes} {w : List Event}
+    (h : UnwoundIO e file ns w) : Nested w := by
+  induction h with
+  | here h1 h2 _ => exact h1.nested.append h2.nested
+  | into n h1 _ ih =>
+    have := Nested.file n false ih Nested.nil
+    exact h1.nested.append (by simpa using this)
+
+theorem UnwoundIO.prepend {e : FailureIO} {file : Bytes} {ns : List Bytes} {a w : List Event}
+    (ha : ClosedTwice a) (h : UnwoundIO e file ns w) : UnwoundIO e file ns (a ++ w) := by
+  cases h with
+  | here h1 h2 h3 =>
+    rw [← List.append_assoc]
+    exact .here (ha.append h1) h2 h3
+  | into n h1 h2 =>
+    rw [← List.append_assoc]
+    exact .into n (ha.append h1) h2
+
+/-- the failure arises in the innermost file of the unwinding, and names it -/
+theorem UnwoundIO.names_innermost {e : FailureIO} {file : Bytes} {ns : List Bytes} {w : List Event}
+    (h : UnwoundIO e file ns w) : ∀ g, e.file? = some g → (file :: ns).getLast? = some g := by
+  induction h with
+  | here _ _ h3 => intro g hg; rw [h3 g hg]; rfl
+  | @into file n ns w inner _ _ ih =>
+    intro g hg
+    rw [List.getLast?_cons_cons]
+    exact ih g hg
+
+/-- after the events of the failing line itself the log holds nothing but ONE close per handle that
+    was open, innermost first -/
+theorem UnwoundIO.suffix {e : FailureIO} {file : Bytes} {ns : List Bytes} {w : List Event}
+    (h : UnwoundIO e file ns w) :
+    ∃ pre t, FaultTail e t ∧ w = pre ++ t ++ ns.reverse.map Event.closed := by
+  induction h with
+  | @here file w t _ h2 _ => exact ⟨w, t, h2, by simp⟩
+  | @into file n ns w inner _ _ ih =>
+    obtain ⟨pre, t, ht, hw⟩ := ih
+    exact ⟨w ++ Event.opened n :: pre, t, ht, by rw [hw]; simp⟩
+
+theorem FaultTail.recursive_inv {f n : Bytes} {l : Nat} {t : List Event}
+    (h : FaultTail (.base (.recursive f l n)) t) : t = [Event.opened n, Event.closed n] := by
+  cases h with
+  | plain h1 _ => exact absurd rfl (h1 f l n)
+  | reopened => rfl
+
+/-- the shape of what a run adds to the log, by outcome -/
+def LogShape (st : St) (file : Bytes) (r : ResultIO) : Prop :=
+  ∃ w, r.2.log = st.log ++ w ∧
+    match r.1 with
+    | none => ClosedTwice w
+    | some e => ∃ ns, UnwoundIO e file ns w
+
+theorem LogShape.ok {st st' : St} {file : Bytes} {w : List Event} (hw : st'.log = st.log ++ w)
+    (h : ClosedTwice w) : LogShape st file (none, st') := ⟨w, hw, h⟩
+
+theorem LogShape.fail {st st' : St} {file : Bytes} {e : FailureIO} {ns : List Bytes} {w : List Event}
+    (hw : st'.log = st.log ++ w) (h : UnwoundIO e file ns w) : LogShape st file (some e, st') := ⟨w, hw, ns, h⟩
+
+/-- a failure that arises in `file` itself and adds nothing to the log -/
+theorem LogShape.plainHere (st : St) (file : Bytes) (e : FailureIO)
+    (h1 : ∀ f l n, e ≠ .base (.recursive f l n)) (h2 : ∀ f l n, e ≠ .closeErr f l n)
+    (h3 : ∀ g, e.file? = some g → g = file) : LogShape st file (some e, st) := by
+  refine LogShape.fail (ns := []) (w := [] ++ []) (by simp) (.here .nil (.plain h1 h2) h3)
+
+theorem parseLinesIO_shape (cfg : Cfg) (ign : Bool) (h : IncludeHandlerIO) (file : Bytes) (tooLong rf : Bool)
+    (hh : ∀ n l st, LogShape st file (h n file l st))
+    (lines : List Bytes) (lineNo : Nat) (vb : Option Bytes) (st : St) :
+    LogShape st file (parseLinesIO cfg ign h file tooLong rf lines lineNo vb st) := by
+  induction lines generalizing lineNo vb st with
+  | nil =>
+    simp only [parseLinesIO]
+    cases tooLong with
+    | true =>
+      exact LogShape.plainHere st file _ (by intros; simp) (by intros; simp) (by intro g hg; simp [FailureIO.file?] at hg)
+    | false =>
+      cases rf with
+      | true =>
+        exact LogShape.plainHere st file _ (by intros; simp) (by intros; simp) (by intro g hg; simp [FailureIO.file?] at hg)
+      | false =>
+        cases vb with
+        | none => exact LogShape.ok (w := []) (by simp) .nil
+        | some v =>
+          exact LogShape.plainHere st file _ (by intros; simp) (by intros; simp)
+            (by intro g hg; simp [FailureIO.file?] at hg; exact hg.symm)
+  | cons raw ls ih =>
+    simp only [parseLinesIO]
+    rcases stepLineIO_cases cfg ign h file lineNo vb st raw with
+      ⟨vb', st', hs, hl⟩ | ⟨c, hs⟩ | ⟨n, _, _, hs⟩
+    · rw [hs]
+      obtain ⟨w, hw, hsh⟩ := ih (lineNo + 1) vb' st'
+      exact ⟨w, by rw [hw, hl], hsh⟩
+    · rw [hs]
+      exact LogShape.plainHere st file _ (by intros; simp) (by intros; simp)
+        (by intro g hg; simp [FailureIO.file?] at hg; exact hg.symm)
+    · rw [hs]
+      obtain ⟨w1, hw1, hsh1⟩ := hh n lineNo st
+      rcases hr : h n file lineNo st with ⟨_ | e, st1⟩
+      · simp only [StepIO.ofResult]
+        rw [hr] at hw1 hsh1
+        obtain ⟨w2, hw2, hsh2⟩ := ih (lineNo + 1) none st1
+        refine ⟨w1 ++ w2, by rw [hw2, hw1, List.append_assoc], ?_⟩
+        rcases hres : (parseLinesIO cfg ign h file tooLong rf ls (lineNo + 1) none st1).1 with _ | e2
+        · rw [hres] at hsh2
+          exact ClosedTwice.append hsh1 hsh2
+        · rw [hres] at hsh2
+          obtain ⟨ns, hu⟩ := hsh2
+          exact ⟨ns, hu.prepend hsh1⟩
+      · simp only [StepIO.ofResult]
+        rw [hr] at hw1 hsh1
+        exact ⟨w1, hw1, hsh1⟩
+
+theorem parseFileFixIO_shape (cfg : Cfg) (ign : Bool) (fs : FSIO) (path : List Bytes) (file text : Bytes)
+    (rf : Bool) (st : St) : LogShape st file (parseFileFixIO cfg ign fs path file text rf st) := by
+  induction hm : unvisited fs.erase path using Nat.strongRecOn generalizing path file text rf st with
+  | _ m ih =>
+    rw [parseFileFixIO_eq]
+    apply parseLinesIO_shape
+    intro n l st0
+    rcases opt_cases (fs.lookup n) with hl | ⟨en, hl⟩
+    · rw [fixHandlerIO_none cfg ign fs path n file l st0 hl]
+      exact LogShape.plainHere st0 file _ (by intros; simp) (by intros; simp)
+        (by intro g hg; simp [FailureIO.file?] at hg; exact hg.symm)
+    · rcases bool_cases (path.contains n) with hp | hp
+      · rw [fixHandlerIO_onPath cfg ign fs path n en file l st0 hl hp]
+        refine LogShape.fail (ns := []) (w := [] ++ [Event.opened n, Event.closed n])
+          (by simp [St.opened, St.closed]) (.here .nil (.reopened file l n) ?_)
+        intro g hg; simp [FailureIO.file?] at hg; exact hg.symm
+      · rw [fixHandlerIO_rec cfg ign fs path n en file l st0 hl hp]
+        have hlt : unvisited fs.erase (n :: path) < m := by
+          rw [← hm]; exact unvisitedIO_lt fs path n en hl hp
+        obtain ⟨w, hw, hsh⟩ := ih _ hlt (n :: path) n en.1 en.2.1 (st0.opened n) rfl
+        rcases hres : parseFileFixIO cfg ign fs (n :: path) n en.1 en.2.1 (st0.opened n) with ⟨_ | e2, st2⟩
+        · rw [hres] at hw hsh
+          simp only [St.opened] at hw
+          simp only [afterIncludeIO]
+          cases hc : en.2.2 with
+          | false =>
+            refine LogShape.ok (w := Event.opened n :: (w ++ Event.closed n :: Event.closed n :: []))
+              (by simp [St.closed, hw]) (.file n hsh .nil)
+          | true =>
+            refine LogShape.fail (ns := [])
+              (w := [] ++ Event.opened n :: (w ++ [Event.closed n, Event.closed n]))
+              (by simp [St.closed, hw]) (.here .nil (.closeFailed file l n hsh) ?_)
+            intro g hg; simp [FailureIO.file?] at hg; exact hg.symm
+        · rw [hres] at hw hsh
+          simp only [St.opened] at hw
+          obtain ⟨ns, hu⟩ := hsh
+          simp only [afterIncludeIO]
+          exact LogShape.fail (ns := n :: ns) (w := [] ++ Event.opened n :: (w ++ [Event.closed n]))
+            (by simp [St.closed, hw]) (.into n .nil hu)
+
+/-- the log of `ParseFile` over a file system with failure flags, root present: the root's handle is
+    opened first and closed last, ONCE; in between, by outcome, `ClosedTwice` or `UnwoundIO` -/
+theorem parseFileIO_log_shape (cfg : Cfg) (ign : Bool) (fs : FSIO) (root : Bytes) (en : Bytes × Bool × Bool)
+    (hl : fs.lookup root = some en) :
+    ∃ w, (parseFileIO cfg ign fs root).2.log = Event.opened root :: (w ++ [Event.closed root]) ∧
+      match (parseFileIO cfg ign fs root).1 with
+      | none => ClosedTwice w
+      | some e => ∃ ns, UnwoundIO e root ns w := by
+  obtain ⟨w, hw, hsh⟩ := parseFileFixIO_shape cfg ign fs [root] root en.1 en.2.1 (St.opened {} root)
+  rw [parseFileIO_some cfg ign fs root en hl]
+  refine ⟨w, ?_, hsh⟩
+  simp only [St.closed]
+  rw [hw]
+  simp [St.opened]
+
+/-- WELL NESTED PER HANDLE: every file system, any flags, every outcome -/
+theorem parseFileIO_nested (cfg : Cfg) (ign : Bool) (fs : FSIO) (root : Bytes) :
+    Nested (parseFileIO cfg ign fs root).2.log := by
+  rcases opt_cases (fs.lookup root) with hl | ⟨en, hl⟩
+  · rw [parseFileIO_none cfg ign fs root hl]; exact .nil
+  · obtain ⟨w, hw, hsh⟩ := parseFileIO_log_shape cfg ign fs root en hl
+    rw [hw]
+    have hn : Nested w := by
+      rcases hres : (parseFileIO cfg ign fs root).1 with _ | e
+      · rw [hres] at hsh; exact hsh.nested
+      · rw [hres] at hsh; obtain ⟨ns, hu⟩ := hsh; exact hu.nested
+    have := Nested.file root false hn Nested.nil
+    simpa using this
+
+theorem parseFileIO_close_counts (cfg : Cfg) (ign : Bool) (fs : FSIO) (root n : Bytes) :
+    (parseFileIO cfg ign fs root).2.log.count (Event.opened n) ≤ (parseFileIO cfg ign fs root).2.log.count (Event.closed n) ∧
+    (parseFileIO cfg ign fs root).2.log.count (Event.closed n) ≤ 2 * (parseFileIO cfg ign fs root).2.log.count (Event.opened n) :=
+  (parseFileIO_nested cfg ign fs root).count_le n
+
+/-- the audit's log: root → a → a.  The re-opened handle of `a` is never closed, yet every open is
+    followed by a close of that NAME; it is not well nested -/
+theorem opensClosed_by_name_only :
+    OpensClosed [Event.opened nmRoot, Event.opened nmA, Event.opened nmA, Event.closed nmA, Event.closed nmRoot] ∧
+    ¬ Nested [Event.opened nmRoot, Event.opened nmA, Event.opened nmA, Event.closed nmA, Event.closed nmRoot] := by
+  constructor
+  · intro pre n post h
+    match pre, h with
+    | [], h => simp at h; obtain ⟨rfl, rfl⟩ := h; simp
+    | [_], h => simp at h; obtain ⟨_, rfl, rfl⟩ := h; simp
+    | [_, _], h => simp at h; obtain ⟨_, _, rfl, rfl⟩ := h; simp
+    | [_, _, _], h => simp at h
+    | [_, _, _, _], h => simp at h
+    | _ :: _ :: _ :: _ :: _ :: rest, h => cases rest <;> simp at h
+  · intro h
+    exact absurd (h.count_le nmA).1 (by decide)
+
+/-- root → a → a (self-include), the `Close` of `a` fails: `a` is open twice when the cycle is found -/
+def fsSelfCycleCloseFails : FSIO := [(nmRoot, inc nmA, false, false), (nmA, inc nmA, false, true)]
+
+/-- root → a → b, the reader of `b` fails -/
+def fsReadFailsDeep : FSIO :=
+  [(nmRoot, inc nmA ++ textLeaf, false, false), (nmA, inc nmB ++ textLeaf, false, false), (nmB, textLeaf, true, false)]
+
 end RV.DictParser
